@@ -506,8 +506,9 @@ def correspondence_requests(case, ft):
         if not resp.startswith('ok '):
             return 'model: ' + resp
         kv = dict(p.split('=', 1) for p in resp.split()[1:])
-        if 0 < Fraction(kv['slackq']) < Fraction(1, 10 ** 9) or 0 < Fraction(kv['slackfov']) < Fraction(1, 10 ** 9):
-            return 'boundary'
+        slacks = [Fraction(x) for x in kv['slackq'][1:-1].split(',')] + [Fraction(x) for x in kv['slackfov'][1:-1].split(',')]
+        if any(0 < sl < Fraction(1, 10 ** 9) for sl in slacks):
+            return 'boundary'       # round(q·N) or int(M·fov) decided within float rounding of the boundary
         impl = {'M': '[' + ','.join(map(str, Ms)) + ']', 'Mo': '[' + ','.join(map(str, Mos)) + ']',
                 'cutin': fmt_cut(ft.cutout_input), 'cutout': fmt_cut(ft.cutout_output)}
         for k, v in impl.items():
@@ -666,7 +667,7 @@ def run(ctx, prop='C01'):
                         'BLAS gemm and np.dot compute matrix products', 'x86 longdouble (64-bit mantissa) reference sums are exact to 1e-15 relative',
                         'the dyadic grid parameters generated are exactly representable, so the model sees the rationals the code sees']
     thorough = ctx.tier == 'thorough'
-    n = ctx.scale(70, 900)
+    n = ctx.scale(140, 1500)
     cases = [dict(c) for c in DIRECTED]
     for i in range(n):
         cases.append(gen_case(ctx.rng, big=thorough and i % 4 == 0))
